@@ -83,7 +83,7 @@ class BaseDecider(SynthesisDecider):
 
     def random_str(self) -> str:
         length = int(abs(round(self.random.normalvariate(0, 10), 0)))
-        return str(chr(self.random.randint(32, 128)) for _ in range(length))
+        return "".join(chr(self.random.randint(32, 128)) for _ in range(length))
 
     def random_bool(self) -> bool:
         return self.random.random_bool()
